@@ -365,6 +365,12 @@ def run(rep, tier):
     # ---- R15.10 the tree built from arbitrary text has bounded depth
     nesting_bound(rep, fb, 'R15.10')
     payload_atoms_are_data(rep, fb, 'R15.11')
+    # ---- R15.14 parsing takes time linear in the text
+    rep.rule('R15.14', 'parsing terminates in time proportional to the text: the tokenizer closes a container through the parent link of the current token (jsmn built with JSMN_PARENT_LINKS) instead of walking back over every token parsed so far - `[[],[],..]` of 1.2 MB took 118 s')
+    jp = fbj.fn('jsmn_parse') if 'fbj' in dir() else facts.FactBase(['contrib/src/jsmn/jsmn.c']).fn('jsmn_parse')
+    links = [n for n in jp.walk() if n['k'] == 'MemberExpr' and n.get('ref', {}).get('name') == 'parent']
+    rep.check(bool(links), 'R15.14', 'jsmn_parse|closing a container', jp.where(), 'a closing bracket finds its container %s' % (
+        'through the parent links of the tokens (%d uses)' % len(links) if links else 'by scanning all tokens backwards (no parent links compiled in): quadratic in the number of containers'))
     # ---- R15.13 deciding "equal" takes one pass over the value
     rep.rule('R15.13', 'the round trip can be checked: Data\'s comparison visits each node once - the operators do not compare a nested container twice per level (operator!= asking operator< both ways, operator< asking the container for != and then for <: 2^depth, hours at depth 40 while fromJSON accepts 1000 levels)')
     dops = {q_: next((f_ for f_ in fb.funcs.values() if f_.q == 'uscxml::Data::' + q_), None) for q_ in ('operator==', 'operator!=', 'operator<')}
